@@ -6,6 +6,7 @@ mod files;
 mod locks;
 mod merge;
 mod names;
+mod panics;
 mod range;
 mod regexes;
 mod sortgen;
@@ -28,6 +29,7 @@ fn main() {
         "files" => files::main(&args[2..]),
         "locks" => locks::main(&args[2..]),
         "names" => names::main(&args[2..]),
+        "panics" => panics::main(&args[2..]),
         "spec-types" => spec::types_main(&args[2..]),
         "spec" => spec::main(&args[2..]),
         "range" => range::main(&args[2..]),
